@@ -39,7 +39,7 @@ from .eventlog import digest_of
 VERIF_DIR = os.path.dirname(os.path.dirname(os.path.abspath(__file__)))
 KNOWN_FILE = os.path.join(VERIF_DIR, 'known_findings.json')
 EVIDENCE_DIR = os.path.join(VERIF_DIR, 'evidence')
-REPLAY_DIR = os.path.join(VERIF_DIR, 'out', 'replay')
+REPLAY_DIR = os.environ.get('VERIF_REPLAY_DIR') or os.path.join(VERIF_DIR, 'out', 'replay')
 
 
 class HarnessError(Exception):
@@ -610,7 +610,7 @@ def main(load_check, argv=None):
         if args.replay:
             return replay(check, args.replay)
         rc, ev, _ = run_batch(check, args.tier, seeds.verif_seed(), runs=args.runs, start=args.start,
-                              workers=args.workers, wall_cap_s=args.wall_cap,
+                              workers=args.workers, wall_cap_s=args.wall_cap if not args.digest_only else 1e9,   # a digest must never be truncated
                               write_evidence=not args.no_evidence and not args.digest_only,
                               quiet=args.digest_only)
         if args.digest_only:
